@@ -129,6 +129,8 @@ void sim_write_result(const char *status, const char *cls, const char *msg)
 
 void sim_result_ok(void)
 {
+    if (G.plain_points)
+        sim_count("sim.plain_access_sched_points", G.plain_points);
     sim_write_result("ok", "-", "");
     _exit(0);
 }
